@@ -243,7 +243,7 @@ impl TExec {
                 } else if a < 0 {
                     Exp3::Fail("negative-amount")
                 } else if self.m.bal(ti).checked_add(a).is_none() {
-                    Exp3::Either
+                    Exp3::Fail("receiver-balance-would-overflow")
                 } else {
                     Exp3::Ok
                 };
@@ -268,7 +268,7 @@ impl TExec {
                 } else if a < 0 {
                     Exp3::Fail("negative-amount")
                 } else if self.m.bal(ti).checked_add(a).is_none() {
-                    Exp3::Either
+                    Exp3::Fail("receiver-balance-would-overflow")
                 } else {
                     Exp3::Ok
                 };
@@ -291,7 +291,7 @@ impl TExec {
                 } else if self.m.bal(fi) < a {
                     Exp3::Fail("insufficient-balance")
                 } else if fi != ti && self.m.bal(ti).checked_add(a).is_none() {
-                    Exp3::Either
+                    Exp3::Fail("receiver-balance-would-overflow")
                 } else {
                     Exp3::Ok
                 };
@@ -460,7 +460,7 @@ impl TExec {
             // whether this counts as "rejected"
             Exp3::Either
         } else if let Some(t) = to {
-            if t != fi && self.m.bal(t).checked_add(a).is_none() { Exp3::Either } else { Exp3::Ok }
+            if t != fi && self.m.bal(t).checked_add(a).is_none() { Exp3::Fail("receiver-balance-would-overflow") } else { Exp3::Ok }
         } else {
             Exp3::Ok
         }
